@@ -422,7 +422,7 @@ func genC12(g GenCtx) interface{} {
 	sc.Init = genInit(rng, nkeys)
 	sc.Faults = map[string]world.Fault{}
 	for _, k := range []string{"watch-connect-error", "watch-connect-timeout", "watch-connect-hang", "watch-connect-delay", "watch-close-mid", "watch-close-idle", "list-hang",
-		"watch-status-frame", "watch-expired-frame", "watch-connect-expired", "watch-connect-canceled-error", "watch-badobj", "watch-bookmark", "watch-dup"} {
+		"watch-status-frame", "watch-expired-frame", "watch-connect-expired", "watch-connect-canceled-error", "watch-connect-api-error", "watch-badobj", "watch-bookmark", "watch-dup"} {
 		if rng.Intn(4) == 0 {
 			sc.Faults[k] = world.Fault{Budget: 1 + rng.Intn(2), Denom: 2 + rng.Intn(4)}
 		}
@@ -496,7 +496,7 @@ func genC14(g GenCtx) interface{} {
 	default:
 		// watch failures of every kind, never fatal
 		sc.Faults = map[string]world.Fault{}
-		for _, k := range []string{"watch-connect-error", "watch-connect-timeout", "watch-connect-canceled-error", "watch-close-mid", "watch-close-after-burst", "watch-close-idle", "watch-status-frame", "watch-expired-frame", "watch-connect-expired", "watch-bookmark", "watch-badobj", "watch-drop", "watch-dup"} {
+		for _, k := range []string{"watch-connect-error", "watch-connect-timeout", "watch-connect-canceled-error", "watch-connect-api-error", "watch-close-mid", "watch-close-after-burst", "watch-close-idle", "watch-status-frame", "watch-expired-frame", "watch-connect-expired", "watch-bookmark", "watch-badobj", "watch-drop", "watch-dup"} {
 			if rng.Intn(2) == 0 {
 				sc.Faults[k] = world.Fault{Budget: 1 + rng.Intn(3), Denom: 2 + rng.Intn(3)}
 			}
